@@ -102,7 +102,18 @@ def gen_tree(rng, C, depth=0, pool=None):
         return nn.Sequential(*kids)
     if ck == 'ModuleList':
         return nn.ModuleList(kids)
-    names = rng.sample(['fc', 'conv', 'head', 'proj', 'attention', 'dense', 'out', 'l0', 'x'], len(kids))
+    # incl. siblings whose names extend each other as strings without being parent and child (proj / proj_drop)
+    base = ['fc', 'conv', 'head', 'proj', 'attention', 'dense', 'out', 'l0', 'x']
+    if rng.random() < 0.4:
+        base = ['fc', 'fc_out', 'proj', 'proj_drop', 'conv', 'conv_bn', 'head', 'head2', 'x', 'x1']
+        names = []
+        while len(names) < len(kids):
+            a = rng.choice(['fc', 'proj', 'conv', 'head', 'x'])
+            for nm in (a, {'fc': 'fc_out', 'proj': 'proj_drop', 'conv': 'conv_bn', 'head': 'head2', 'x': 'x1'}[a]):
+                if nm not in names and len(names) < len(kids):
+                    names.append(nm)
+    else:
+        names = rng.sample(base, len(kids))
     if ck == 'ModuleDict':
         return nn.ModuleDict(dict(zip(names, kids)))
     b = C['Block']()
@@ -116,6 +127,12 @@ def gen_tree(rng, C, depth=0, pool=None):
 def gen_patterns(rng):
     atoms = ['fc', 'conv', 'Linear', 'linear', '^0', '0$', r'\.1', 'proj|head', 'Conv2d', '^$', 'a', 'My', 'x.y',
              'Parallel', 'column', r'^\w+\.\d$', 'dense', 'l0', 'Sub$', '.']
+    if rng.random() < 0.25:
+        # every pattern is searched on its own: an inline flag or a capturing group of one pattern means nothing to
+        # the others (global flags are written first, as Python requires)
+        special = ['(?i)conv', '(?i)LINEAR', '(?i)^FC', r'(fc|proj)_\w+$', r'(\d)\1', r'(conv)$', r'(?i)head\d', r'(.)\1',
+                   r'(?x) proj # comment', r'(?s)x.']
+        return rng.sample(special, rng.choice([1, 2, 2, 3])) + rng.sample(atoms[:-1], rng.choice([0, 1, 2]))
     return rng.sample(atoms[:-1], rng.choice([0, 0, 1, 1, 2, 3])) if rng.random() < 0.97 else ['.']
 
 
